@@ -404,3 +404,104 @@ Proof.
   change {| st_ports := [[]; []] |} with (zip_state []).
   rewrite run_zip_static. rewrite (spec_run_nth zip_static_spec h [] t [] []) by exact Ht. reflexivity.
 Qed.
+
+(* ------------------------------------------------------------------ zip with mixed persistences *)
+
+(* how many items of the persisting side have been paired during the ticks of [pre]:
+   k = the persisting port, 1 - k the 'tick port *)
+Definition zip_step (k : nat) (acc : nat * nat) (x : list (list val)) : nat * nat :=
+  let len := (fst acc + length (port k x))%nat in
+  (len, (snd acc + Nat.min (len - snd acc) (length (port (1 - k) x)))%nat).
+Definition zip_consumed (k : nat) (pre : list (list (list val))) : nat :=
+  snd (fold_left (zip_step k) pre (0%nat, 0%nat)).
+
+(* zip<'static,'tick>: the left side queues across ticks, the right side is paired within its tick
+   and its excess dropped; each tick pairs the not yet paired left items with this tick's right items *)
+Definition zip_st_spec (pre : list (list (list val))) (cur : list (list val)) : list (list val) :=
+  [vzip (skipn (zip_consumed 0 pre) (items pre 0 ++ port 0 cur)) (port 1 cur)].
+Definition zip_ts_spec (pre : list (list (list val))) (cur : list (list val)) : list (list val) :=
+  [vzip (port 0 cur) (skipn (zip_consumed 1 pre) (items pre 1 ++ port 1 cur))].
+
+Lemma zip_fold_len : forall k pre a,
+  fst (fold_left (zip_step k) pre a) = (fst a + length (items pre k))%nat.
+Proof.
+  intros k pre. induction pre as [|x pre IH] using rev_ind; intros a.
+  - cbn. unfold items. cbn. lia.
+  - rewrite fold_left_app. cbn [fold_left]. unfold zip_step at 1. cbn [fst].
+    rewrite IH, items_app, app_length. lia.
+Qed.
+
+Lemma zip_consumed_le : forall k pre, (zip_consumed k pre <= length (items pre k))%nat.
+Proof.
+  intros k pre. unfold zip_consumed. induction pre as [|x pre IH] using rev_ind.
+  - cbn. lia.
+  - rewrite fold_left_app. cbn [fold_left]. unfold zip_step at 1. cbn [snd].
+    rewrite zip_fold_len. cbn [fst]. rewrite items_app, app_length. lia.
+Qed.
+
+Lemma zip_consumed_snoc : forall k pre x,
+  zip_consumed k (pre ++ [x]) =
+  (zip_consumed k pre + Nat.min (length (items pre k) + length (port k x) - zip_consumed k pre)
+                                (length (port (1 - k) x)))%nat.
+Proof.
+  intros k pre x. unfold zip_consumed. rewrite fold_left_app. cbn [fold_left]. unfold zip_step at 1. cbn [snd].
+  rewrite zip_fold_len. cbn [fst]. reflexivity.
+Qed.
+
+Lemma vzip_firstn_min : forall l r,
+  vzip (firstn (Nat.min (length l) (length r)) l) (firstn (Nat.min (length l) (length r)) r) = vzip l r.
+Proof. intros. unfold vzip. rewrite combine_firstn_min. reflexivity. Qed.
+
+Definition zip_st_state (pre : list (list (list val))) : ostate :=
+  {| st_ports := [skipn (zip_consumed 0 pre) (items pre 0); []] |}.
+
+Lemma run_zip_st : forall h pre,
+  run_from (OZip Static Tick) (zip_st_state pre) h = spec_run zip_st_spec pre h.
+Proof.
+  induction h as [|c r IH]; intros pre; cbn [run_from spec_run]; [reflexivity|].
+  unfold zip_st_state at 1. cbn [op_step op_end st_ports port nth app].
+  set (L := items pre 0). set (m := zip_consumed 0 pre). set (cl := port 0 c). set (cr := port 1 c).
+  assert (Hm : (m <= length L)%nat) by apply zip_consumed_le.
+  rewrite <- (skipn_app_le m L cl Hm). set (L' := L ++ cl).
+  f_equal.
+  - unfold zip_st_spec. fold L m. fold cl cr L'. rewrite vzip_firstn_min. reflexivity.
+  - rewrite <- IH. f_equal. unfold zip_st_state. f_equal. f_equal.
+    rewrite skipn_skipn'. rewrite items_app. fold L cl L'.
+    f_equal. rewrite zip_consumed_snoc. fold L m. fold cl. cbn [Nat.sub]. fold cr.
+    rewrite skipn_length. unfold L'. rewrite app_length. cbn [Nat.sub]. lia.
+Qed.
+
+Theorem zip_st_correct : forall h t,
+  (t < length h)%nat -> nth t (run_op (OZip Static Tick) h) [] = tick_view zip_st_spec h t.
+Proof.
+  intros h t Ht. unfold run_op, tick_view. cbn [op_init].
+  change {| st_ports := [[]; []] |} with (zip_st_state []).
+  rewrite run_zip_st. rewrite (spec_run_nth zip_st_spec h [] t [] []) by exact Ht. reflexivity.
+Qed.
+
+Definition zip_ts_state (pre : list (list (list val))) : ostate :=
+  {| st_ports := [[]; skipn (zip_consumed 1 pre) (items pre 1)] |}.
+
+Lemma run_zip_ts : forall h pre,
+  run_from (OZip Tick Static) (zip_ts_state pre) h = spec_run zip_ts_spec pre h.
+Proof.
+  induction h as [|c r IH]; intros pre; cbn [run_from spec_run]; [reflexivity|].
+  unfold zip_ts_state at 1. cbn [op_step op_end st_ports port nth app].
+  set (R := items pre 1). set (m := zip_consumed 1 pre). set (cl := port 0 c). set (cr := port 1 c).
+  assert (Hm : (m <= length R)%nat) by apply zip_consumed_le.
+  rewrite <- (skipn_app_le m R cr Hm). set (R' := R ++ cr).
+  f_equal.
+  - unfold zip_ts_spec. fold R m. fold cl cr R'. rewrite vzip_firstn_min. reflexivity.
+  - rewrite <- IH. f_equal. unfold zip_ts_state. f_equal. f_equal. f_equal.
+    rewrite skipn_skipn'. rewrite items_app. fold R cr R'.
+    f_equal. rewrite zip_consumed_snoc. fold R m. fold cr. cbn [Nat.sub]. fold cl.
+    rewrite skipn_length. unfold R'. rewrite app_length. lia.
+Qed.
+
+Theorem zip_ts_correct : forall h t,
+  (t < length h)%nat -> nth t (run_op (OZip Tick Static) h) [] = tick_view zip_ts_spec h t.
+Proof.
+  intros h t Ht. unfold run_op, tick_view. cbn [op_init].
+  change {| st_ports := [[]; []] |} with (zip_ts_state []).
+  rewrite run_zip_ts. rewrite (spec_run_nth zip_ts_spec h [] t [] []) by exact Ht. reflexivity.
+Qed.
